@@ -1,6 +1,6 @@
 (* C09 — non-vacuity examples and the refutations of the pre-repair behaviour *)
 From Coq Require Import ZArith List Bool String.
-From Verif Require Import C09.Model C09.Proofs.
+From Verif Require Import C09.Model C09.Proofs C09.ProofsCb.
 Import ListNotations.
 Open Scope Z_scope.
 
@@ -296,3 +296,58 @@ Proof.
          (Nascent, Senescent).
   vm_compute. auto.
 Qed.
+
+(* ---------------------------------------------------------------------- *)
+(* callbacks that raise                                                     *)
+
+Notation xstepf := (step_cb depleted_f64 rate_hit_f64 current).
+Notation xexecf := (xexec depleted_f64 rate_hit_f64 current).
+Definition fail_all : cbs :=
+  mkCbs [(Nascent, Active); (Active, Senescent); (Senescent, Active); (Active, Terminated); (Active, Apoptotic)] false.
+Definition started3 := fst (fst (stepf cfg3 (init cfg3) Start)).
+
+(* terminate() whose notification raises: the exception is handed back, the lifecycle IS terminated, the next tick
+   reports False (c09_terminate_terminates_raising_callbacks, c09_ticks_raising_callbacks) *)
+Example ex_terminate_observer_fails :
+  xstepf fail_all cfg3 started3 Terminate
+  = (set_phase started3 Terminated, CallbackRaised, [(Active, Terminated)]) /\
+  xout depleted_f64 rate_hit_f64 current quiet_cbs cfg3 (set_phase started3 Terminated) (Tick 1) = Done (Ret (RBool false)).
+Proof. vm_compute. auto. Qed.
+
+(* check_timeouts past the lifetime limit with a failing observer / a failing on_senescence: SENESCENT all the same
+   (c09_limits_force_senescence_raising_callbacks) *)
+Example ex_lifetime_observer_fails :
+  let h := [(quiet_cbs, Start); (quiet_cbs, Advance 10)] in
+  ph (xexecf cfg3 (init cfg3) h) = Active /\
+  ph (xstate depleted_f64 rate_hit_f64 current fail_all cfg3 (xexecf cfg3 (init cfg3) h) CheckTimeouts) = Senescent /\
+  xout depleted_f64 rate_hit_f64 current fail_all cfg3 (xexecf cfg3 (init cfg3) h) CheckTimeouts = CallbackRaised /\
+  xout depleted_f64 rate_hit_f64 current (mkCbs [] true) cfg3 (xexecf cfg3 (init cfg3) h) CheckTimeouts = CallbackRaised.
+Proof. vm_compute. auto. Qed.
+
+(* tick on a NASCENT lifecycle whose start notification raises: started, nothing spent; a renew() whose
+   SENESCENT -> ACTIVE notification raises was carried out and keeps the stale senescence reason (the states the
+   plain histories never reach are covered by the all-states theorems) *)
+Example ex_cut_calls :
+  xstepf fail_all cfg3 (init cfg3) (Tick 1)
+  = (mkState Active 3 0 0 0 None (Some 0) (Some 0) 0, CallbackRaised, [(Nascent, Active)]) /\
+  xstepf fail_all cfg3 (mkState Senescent 0 3 0 0 (Some Depletion) (Some 0) (Some 0) 0) (Renew None true)
+  = (mkState Active 3 3 0 1 (Some Depletion) (Some 0) (Some 0) 0, CallbackRaised, [(Senescent, Active)]).
+Proof. vm_compute. auto. Qed.
+
+(* c09_hayflick_raising_callbacks: a history in which a renewal hands back an exception and three more ticks report True *)
+Example ex_hayflick_raising :
+  let h := [(quiet_cbs, Tick 1); (quiet_cbs, Tick 1); (quiet_cbs, Tick 1); (fail_all, Renew None true);
+            (quiet_cbs, Tick 1); (quiet_cbs, Tick 1)] in
+  xexec_count depleted_f64 rate_hit_f64 cfg3 (init cfg3) 3 0 0 h
+  = (mkState Active 1 5 0 1 (Some Depletion) (Some 0) (Some 0) 0, 3, 2, 2).
+Proof. vm_compute. reflexivity. Qed.
+
+(* two threads: thread A terminates, thread B's renew() takes the lock afterwards (lin = A, B) and is refused; in the
+   other order the renewal is granted and the terminate() still wins (c09_two_threads_terminated_absorbing) *)
+Example ex_two_threads :
+  let sen := execf cfg3 (init cfg3) [Start; Tick 1; Tick 1; Tick 1] in
+  ph sen = Senescent /\
+  run_lin current cfg3 sen [Terminate] [Renew None true] [false; true]
+  = [[0; -1; 4; 0; 0; 3; 0; 0; 0; 0; 2; 4]; [1; 0; 4; 0; 0; 3; 0; 0; 0; 0]; [-1; 0; 0]] /\
+  ph (execf cfg3 sen (merge [true; false] [Terminate] [Renew None true])) = Terminated.
+Proof. vm_compute. auto. Qed.
